@@ -1277,3 +1277,21 @@ M("c12-running-pointer-cleared", ["C12", "C01"], CX,
 M("c01-reentrant-eval-own-clock", ["C01"], CX,
   "        started = time.monotonic() if outer is None else outer.start_time\n", "        started = time.monotonic()\n",
   [("C01", "C01-R12", "handed-back")], note="an evaluation nested through a host function starts a clock of its own")
+M("c05-var-without-init-stores-local", ["C05"], CO,
+  "                    self._add_local(name)\n                    continue\n", "                    self._add_local(name)\n                    self._emit(OpCode.LOAD_UNDEFINED)\n",
+  [("C05", "C05-R14", "no-initialiser")], note="fix 3bc9911 reverted for locals: `var t;` falls through to the store with undefined")
+M("c13-decimal-point-needs-digit", ["C13"], LX,
+  "        if self._current() == \".\":\n            is_float = True\n", "        if self._current() == \".\" and _is_digit(self._peek()):\n            is_float = True\n",
+  [("C13", "C13-R15", "decimal-point")], note="fix 16b493c reverted: 1.e3 is read as 1 followed by .e3")
+M("c13-number-end-unchecked", ["C13"], LX,
+  "        if ch and (ch.isalnum() or ch in \"_$\"):\n", "        if False:\n",
+  [("C13", "C13-R15", "identifier-after-number")], note="3in x and 0x1g accepted again")
+M("c13-new-callee-primary-only", ["C13"], PA,
+  "            callee = self._continue_postfix_expression(\n                self._parse_new_expression(), members_only=True\n            )\n", "            callee = self._parse_new_expression()\n",
+  [("C13", "C13-R16", "callee")], note="fix fbd50ce reverted")
+M("c13-new-callee-takes-calls", ["C13"], PA,
+  "            callee = self._continue_postfix_expression(\n                self._parse_new_expression(), members_only=True\n            )\n", "            callee = self._continue_postfix_expression(self._parse_new_expression())\n",
+  [("C13", "C13-R16", "callee")], note="the callee continued over calls too: new a.b() would construct the result of a.b()")
+M("c08-constructor-returns-function-dropped", ["C08"], VM,
+  "                if not isinstance(result, (JSObject, JSFunction)):\n", "                if not isinstance(result, JSObject):\n",
+  [("C08", "C08-R20", "constructor-result")], note="fix da3ae7d reverted")
